@@ -1,7 +1,10 @@
 import os
 import vlib
 
-THEOREMS = ["Dispenso.ConVec." + t for t in ['C32_sub_lt_cap', 'C32_index_decomp', 'C32_cap_eq', 'C32_bucket_inverse', 'C32_buckets_tile', 'C32_bucket_injective', 'C32_ledger', 'C32_all_destroyed', 'C32_wf_reachable', 'C32_sem_pushBack', 'C32_sem_growBy', 'C32_sem_growByVal', 'C32_sem_growByRange', 'C32_sem_growToAtLeast', 'C32_sem_insert1', 'C32_sem_insertN', 'C32_sem_insertRange', 'C32_sem_erase1', 'C32_sem_eraseRange', 'C32_sem_resize', 'C32_sem_resizeVal', 'C32_sem_popBack', 'C32_sem_clear', 'C32_sem_assign', 'C32_sem_assignRange', 'C32_sem_copyCtor', 'C32_sem_moveCtor', 'C32_sem_copyAssign', 'C32_sem_moveAssign', 'C32_sem_swap', 'C32_sem_reserve', 'C32_sem_shrinkToFit', 'C32_sem_destroy', 'C32_sem_frame']]
+THEOREMS = ["Dispenso.ConVec." + t for t in ['C32_sub_lt_cap', 'C32_index_decomp', 'C32_cap_eq', 'C32_bucket_inverse', 'C32_buckets_tile', 'C32_bucket_injective', 'C32_ledger', 'C32_all_destroyed', 'C32_wf_reachable', 'C32_sem_pushBack', 'C32_sem_growBy', 'C32_sem_growByVal', 'C32_sem_growByRange', 'C32_sem_growToAtLeast', 'C32_sem_insert1', 'C32_sem_insertN', 'C32_sem_insertRange', 'C32_sem_erase1', 'C32_sem_eraseRange', 'C32_sem_resize', 'C32_sem_resizeVal', 'C32_sem_popBack', 'C32_sem_clear', 'C32_sem_assign', 'C32_sem_assignRange', 'C32_sem_copyCtor', 'C32_sem_moveCtor', 'C32_sem_copyAssign', 'C32_sem_moveAssign', 'C32_sem_swap', 'C32_sem_reserve', 'C32_sem_shrinkToFit', 'C32_sem_destroy', 'C32_sem_frame']] + ["Dispenso.ConVecAlloc." + t for t in [
+    'C32_alloc_inv_reachable', 'C32_alloc_never_hangs', 'C32_alloc_index_allocated', 'C32_alloc_ahead', 'C32_alloc_capacity',
+    'C32_alloc_prefix', 'C32_alloc_reserve', 'C32_alloc_ledger', 'C32_alloc_destroy_balanced', 'C32_alloc_all_freed',
+    'C32_alloc_growth_monotone', 'C32_alloc_range_targets']]
 
 
 def run(ctx, replay):
@@ -12,18 +15,23 @@ def run(ctx, replay):
                        "reserve, pop_back, clear, shrink_to_fit, copy/move assignment, swap, comparisons; after every operation "
                        "size, returned position, contents and live-element count are compared with the Lean model, and "
                        "iteration / indexing / reverse iteration / iterator arithmetic with std::vector; plus the bucket index "
-                       "functions vs the model; distinct = distinct request lines")
+                       "functions vs the model; white-box after every operation: firstBucketShift_, capacity(), which buffers_[b] "
+                       "are non-null, the shouldDealloc_ flags, which bucket pointers start a malloc block and the "
+                       "malloc/free log (calls, element slots) vs the allocation model `cvalloc` (trait sets with first "
+                       "buckets of 1, 4 and 32 elements, all three strategies, inline and heap tables); operations that set "
+                       "the size or the buffers directly are often followed by growth across the next bucket boundaries; "
+                       "distinct = distinct request lines")
     if THEOREMS:
         ctx.prove("DispensoVerif.Props.C32", THEOREMS)
     else:
         vlib.lake_build(["dvdriver"])
     src = os.path.join(vlib.HARNESS, "seq", "c32_convec.cpp")
-    exe, log = vlib.build_harness(src, ["-O1", "-g"] + vlib.SAN_FLAGS)
+    exe, log = vlib.build_harness(src, ["-O0", "-g"] + vlib.SAN_FLAGS)   # -O0: 10 trait instantiations compile 2-3x faster
     if not exe:
         ctx.broken.append(("harness:c32_convec", "does not compile against the current tree: " + log[-1500:]))
         return
     q = ctx.tier == "quick"
-    args = replay["args"] if replay and replay.get("args") else [ctx.seed, 300 if q else 10000, 16 if q else 40]
+    args = replay["args"] if replay and replay.get("args") else [ctx.seed, 400 if q else 8000, 16 if q else 40]
     if True:
         res = vlib.harness_diff(ctx, "convec", exe, args)
         vlib.standard_verdict(ctx, "convec", res, args, "seq/c32_convec.cpp")
